@@ -291,7 +291,7 @@ Proof.
   intros m st t c st' evs R H. destruct R as [G Hact Hclean Hq Htr].
   pose proof (fresh_tid _ _ _ _ _ G H) as Hfresh.
   pose proof (ginv_step _ _ _ _ G H) as G'.
-  destruct (step_call _ _ _ _ _ H) as (-> & pc & Hths & Hpc).
+  destruct (step_call _ _ _ _ _ H) as (-> & Hths & Hcrc & _ & _).
   assert (Hkeys : keys (threads st') = (t, c) :: keys (threads st)) by (rewrite Hths; reflexivity).
   assert (Hnottr : forall b, flag_of t (p_pauses m) <> Some b).
   { intros b Hf. destruct (Htr t b Hf) as (th & Hin & Hid & _). apply Hfresh. rewrite <- Hid. unfold ids. apply in_map. exact Hin. }
@@ -325,7 +325,7 @@ Proof.
            { intros th Hin. rewrite Hact in H1. eapply any_active_resume_false; eassumption. }
            split; [apply Hno'; exact Hno|].
            intros th Hin Hid Hp Hpcc. rewrite Hths in Hin. destruct Hin as [<-|Hin].
-           ++ cbn in Hpcc. destruct Hpc; congruence.
+           ++ cbn in Hpcc. destruct (is_create c); discriminate.
            ++ exfalso. apply Hfresh. rewrite <- Hid. unfold ids. apply in_map. exact Hin.
         -- apply Nat.eqb_neq in E. destruct (Hclean t0 Hf) as [Hno Hpt]. split; [apply Hno'; exact Hno|].
            apply Hpt'; [congruence|exact Hpt].
